@@ -195,13 +195,16 @@ func signHS256(secret string) string {
 }
 
 // RunReloadBinaryCase drives the REAL reload path of the binary (SIGUSR1 -> LoadRecursively -> Equals ->
-// ReplaceDefinitions): a sequence of edits of the pipeline files, including edits back to an earlier content, must each be
-// applied - the pipeline list and the tasks of jobs accepted afterwards must follow the files
+// ReplaceDefinitions): a sequence of edits of the pipeline files, including edits back to an earlier content, edits that
+// change a single scalar (concurrency, start_delay) and files replaced by renaming an OLDER file over them, must each be
+// applied - the pipeline list, the tasks of jobs accepted afterwards, the concurrency limit and the start delay in force
+// must follow the files
 func RunReloadBinaryCase(seed int64, bin, workDir string) *HistResult {
 	r := rand.New(rand.NewSource(seed))
 	res := &HistResult{Seed: seed, Situations: map[string]map[string]struct{}{}, Evaluations: map[string]int{}}
+	reloadProps := []string{"C16", "C17", "C01", "C07"}
 	find := func(sig, format string, args ...any) {
-		res.Findings = append(res.Findings, Finding{Props: []string{"C16", "C17"}, Sig: sig, Detail: fmt.Sprintf(format, args...), Step: -1})
+		res.Findings = append(res.Findings, Finding{Props: reloadProps, Sig: sig, Detail: fmt.Sprintf(format, args...), Step: -1})
 	}
 	dir, err := os.MkdirTemp(workDir, "reload-")
 	if err != nil {
@@ -209,29 +212,52 @@ func RunReloadBinaryCase(seed int64, bin, workDir string) *HistResult {
 		return res
 	}
 	defer os.RemoveAll(dir)
-	// versions of the definitions: each names its pipelines and the single task of pipeline "main"
+	// versions of the definitions: each names its pipelines and the single task of pipeline "main"; every version also
+	// has a pipeline "limited" (its concurrency varies) and a pipeline "delayed" (its start delay varies)
 	type version struct {
-		name  string
-		pipes []string
-		task  string
-		yml   string
+		name    string
+		pipes   []string
+		task    string
+		yml     string
+		limited int
+		delay   time.Duration
 	}
-	mk := func(name string, pipes []string, task string, extra string) version {
+	mk := func(name string, pipes []string, task string, extra string, limited int, delay time.Duration) version {
 		y := "pipelines:\n"
 		for _, p := range pipes {
 			y += fmt.Sprintf("  %s:\n    concurrency: 5\n%s    tasks:\n      %s:\n        script: [\"true\"]\n", p, extra, task)
 		}
-		return version{name, pipes, task, y}
+		y += fmt.Sprintf("  limited:\n    concurrency: %d\n    tasks:\n      hold:\n        script: [\"sleep 4\"]\n", limited)
+		y += fmt.Sprintf("  delayed:\n    concurrency: 1\n    queue_limit: 1\n    queue_strategy: replace\n    start_delay: %s\n    tasks:\n      t:\n        script: [\"true\"]\n", delay)
+		return version{name, append(append([]string(nil), pipes...), "limited", "delayed"), task, y, limited, delay}
 	}
+	const short, long = 100 * time.Millisecond, 4 * time.Second
 	versions := []version{
-		mk("A", []string{"main"}, "task_a", ""),
-		mk("B", []string{"main", "second"}, "task_b", ""),
-		mk("C", []string{"main"}, "task_a", "    env:\n      K: \"\"\n"),
-		mk("D", []string{"main"}, "task_a", "    env:\n      L: \"\"\n"),
-		mk("E", []string{"main"}, "task_a", "    queue_limit: 0\n"),
+		mk("A", []string{"main"}, "task_a", "", 1, short),
+		mk("B", []string{"main", "second"}, "task_b", "", 3, short),
+		mk("C", []string{"main"}, "task_a", "    env:\n      K: \"\"\n", 1, short),
+		mk("D", []string{"main"}, "task_a", "    env:\n      L: \"\"\n", 1, short),
+		mk("E", []string{"main"}, "task_a", "    queue_limit: 0\n", 1, short),
+		mk("G", []string{"main"}, "task_a", "", 1, long), // differs from A in the start delay only
 	}
-	write := func(v version) { _ = os.WriteFile(filepath.Join(dir, "pipelines.yml"), []byte(v.yml), 0o644) }
-	write(versions[0])
+	file := filepath.Join(dir, "pipelines.yml")
+	nWrites := 0
+	write := func(v version) string {
+		nWrites++
+		if nWrites%2 == 0 {
+			// replace the file by renaming a file over it that was "prepared earlier" (its modification time is older
+			// than the one of the file it replaces)
+			tmp := filepath.Join(dir, "prepared.tmp")
+			_ = os.WriteFile(tmp, []byte(v.yml), 0o644)
+			old := time.Now().Add(-2 * time.Hour)
+			_ = os.Chtimes(tmp, old, old)
+			_ = os.Rename(tmp, file)
+			return "renamed over, older mtime"
+		}
+		_ = os.WriteFile(file, []byte(v.yml), 0o644)
+		return "written in place"
+	}
+	_ = os.WriteFile(file, []byte(versions[0].yml), 0o644)
 	l, err := net.Listen("tcp", "127.0.0.1:0")
 	if err != nil {
 		res.Inconclusive = "no loopback listener: " + err.Error()
@@ -294,38 +320,133 @@ func RunReloadBinaryCase(seed int64, bin, workDir string) *HistResult {
 		res.Inconclusive = "the prunner binary did not come up"
 		return res
 	}
-	taskOfNewJob := func() string {
-		code, body := do("POST", "/pipelines/schedule", map[string]any{"pipeline": "main"})
+	type detail struct {
+		ID       string
+		Start    *time.Time
+		Canceled bool
+		Tasks    []struct{ Name string }
+	}
+	schedule := func(pipeline string) (string, int) {
+		code, body := do("POST", "/pipelines/schedule", map[string]any{"pipeline": pipeline})
 		var sr struct{ JobID string }
 		_ = json.Unmarshal(body, &sr)
+		return sr.JobID, code
+	}
+	jobDetail := func(id string) detail {
+		_, body := do("GET", "/job/detail?id="+id, nil)
+		var jd detail
+		_ = json.Unmarshal(body, &jd)
+		return jd
+	}
+	taskOfNewJob := func() string {
+		id, code := schedule("main")
 		if code != 202 {
 			return fmt.Sprintf("schedule answered %d", code)
 		}
-		_, body = do("GET", "/job/detail?id="+sr.JobID, nil)
-		var jd struct {
-			Tasks []struct{ Name string }
-		}
-		_ = json.Unmarshal(body, &jd)
+		jd := jobDetail(id)
 		if len(jd.Tasks) != 1 {
 			return fmt.Sprintf("%d tasks", len(jd.Tasks))
 		}
 		return jd.Tasks[0].Name
 	}
-	// edit sequence: always includes going back to the content the process started with, and pairs that differ only in an
-	// env key with an empty value
-	seq := []int{1, 0, 1, 0, 2, 3, 2, 0, 4, 0}
+	cancel := func(id string) { do("POST", "/job/cancel?id="+id, nil) }
+	// the concurrency of "limited" that is in force, observed through two jobs: with limit 1 the second must wait
+	limitInForce := func(want int, label string) {
+		a, c1 := schedule("limited")
+		b, c2 := schedule("limited")
+		if c1 != 202 || c2 != 202 {
+			res.Inconclusive = fmt.Sprintf("schedule on 'limited' answered %d / %d", c1, c2)
+			return
+		}
+		defer func() {
+			cancel(a)
+			cancel(b)
+			// the slots must be free again for the next probe (bounded wait, shaping only)
+			for i := 0; i < 500; i++ {
+				_, body := do("GET", "/pipelines/", nil)
+				var pr struct {
+					Pipelines []struct {
+						Pipeline string
+						Running  bool
+					}
+				}
+				_ = json.Unmarshal(body, &pr)
+				busy := false
+				for _, p := range pr.Pipelines {
+					if p.Pipeline == "limited" && p.Running {
+						busy = true
+					}
+				}
+				if !busy {
+					return
+				}
+				time.Sleep(10 * time.Millisecond)
+			}
+		}()
+		res.sit("C01", fmt.Sprintf("limit %d in force after reload (%s)", want, label))
+		res.Evaluations["C01"]++
+		time.Sleep(300 * time.Millisecond)
+		da, db := jobDetail(a), jobDetail(b)
+		started := 0
+		if da.Start != nil {
+			started++
+		}
+		if db.Start != nil {
+			started++
+		}
+		if want == 1 && started > 1 {
+			res.Findings = append(res.Findings, Finding{Props: []string{"C01", "C16"}, Sig: "C01:limit-of-reloaded-definition-not-in-force", Detail: fmt.Sprintf("%s: the files say concurrency 1 for pipeline 'limited' and the reload was applied (the API lists the new pipelines), but two jobs scheduled afterwards both started", label), Step: -1})
+		}
+	}
+	// the start delay of "delayed" that is in force, observed through jobs: bounded wait until a job behaves as the file says
+	delayInForce := func(want time.Duration, label string) bool {
+		res.sit("C07", fmt.Sprintf("start delay %v in force after reload (%s)", want, label))
+		res.Evaluations["C07"]++
+		deadline := time.Now().Add(12 * time.Second)
+		for time.Now().Before(deadline) {
+			id, code := schedule("delayed")
+			if code != 202 {
+				time.Sleep(50 * time.Millisecond)
+				continue
+			}
+			time.Sleep(1200 * time.Millisecond)
+			jd := jobDetail(id)
+			if want == long && jd.Start == nil && !jd.Canceled {
+				cancel(id)
+				return true // not started 1.2 s after acceptance: the long delay governs
+			}
+			if want == short && jd.Start != nil {
+				return true
+			}
+			cancel(id)
+		}
+		return false
+	}
+	// edit sequence: always includes going back to the content the process started with, pairs that differ only in an env
+	// key with an empty value, and pairs that differ only in the start delay
+	seq := []int{1, 0, 5, 0, 1, 0, 2, 3, 2, 0, 4, 0}
 	if r.Intn(2) == 0 {
-		seq = []int{2, 3, 0, 1, 0, 1, 4, 0, 3, 2, 0}
+		seq = []int{2, 3, 0, 5, 0, 1, 0, 1, 4, 0, 3, 2, 0}
 	}
 	cur := versions[0]
 	for step, vi := range seq {
 		next := versions[vi]
-		write(next)
+		how := write(next)
 		_ = cmd.Process.Signal(syscall.SIGUSR1)
-		res.sit("C16", fmt.Sprintf("reload %s->%s", cur.name, next.name))
-		res.sit("C17", fmt.Sprintf("reload %s->%s", cur.name, next.name))
-		res.Evaluations["C16"]++
-		res.Evaluations["C17"]++
+		for _, p := range reloadProps {
+			res.sit(p, fmt.Sprintf("reload %s->%s (%s)", cur.name, next.name, how))
+		}
+		label := fmt.Sprintf("step %d, version %s -> %s, file %s", step, cur.name, next.name, how)
+		onlyDelay := eqStr(cur.pipes, next.pipes) && cur.task == next.task && cur.limited == next.limited && cur.delay != next.delay && (cur.name == "G" || next.name == "G")
+		if onlyDelay {
+			// nothing in the listings changes: the reload shows in the behaviour of jobs accepted afterwards (bounded wait)
+			if !delayInForce(next.delay, label) {
+				find("C17:edit-ignored-by-reload", "%s: only start_delay of pipeline 'delayed' changed (%v -> %v) and SIGUSR1 was sent, but for 12 s every job accepted afterwards still behaved as under the old delay", label, cur.delay, next.delay)
+				break
+			}
+			cur = next
+			continue
+		}
 		// the reload is asynchronous: wait (bounded) until the API reflects the file; what must change depends on the pair
 		want := append([]string(nil), next.pipes...)
 		sort.Strings(want)
@@ -339,9 +460,6 @@ func RunReloadBinaryCase(seed int64, bin, workDir string) *HistResult {
 				break
 			}
 			time.Sleep(10 * time.Millisecond)
-		}
-		if ok && next.name == "E" {
-			// queue_limit 0 with 5 free slots still starts jobs; nothing more to observe here
 		}
 		if ok {
 			// a job accepted after the reload uses the new definition
@@ -357,8 +475,15 @@ func RunReloadBinaryCase(seed int64, bin, workDir string) *HistResult {
 			}
 		}
 		if !ok {
-			find("C17:edit-ignored-by-reload", "step %d: the files were changed from version %s to version %s and SIGUSR1 was sent, but 10 s later the API still lists pipelines %v (file: %v) and a new job of 'main' has task %q (file: %q)", step, cur.name, next.name, got, want, gotTask, next.task)
+			find("C17:edit-ignored-by-reload", "%s: SIGUSR1 was sent, but 10 s later the API still lists pipelines %v (file: %v) and a new job of 'main' has task %q (file: %q)", label, got, want, gotTask, next.task)
 			break
+		}
+		if cur.limited != next.limited && (cur.name == "B" || next.name == "B") {
+			// the listing changed, so the new definitions are in force: so is their concurrency limit
+			limitInForce(next.limited, label)
+			if res.Inconclusive != "" {
+				break
+			}
 		}
 		cur = next
 	}
